@@ -77,11 +77,21 @@ COMMON_TRUSTED = [
 ]
 
 
+MEM_LIMIT_GB = int(os.environ.get("VERIF_MEM_GB", "20"))
+
+
+def _limits():
+    # address-space cap per process (inherited by cbmc): a runaway query fails (-> UNDECIDED) instead of taking the box down
+    import resource
+    lim = MEM_LIMIT_GB * 1024 ** 3
+    resource.setrlimit(resource.RLIMIT_AS, (lim, lim))
+
+
 def sh(cmd, cwd=None, timeout=None, env=None):
     t0 = time.time()
     try:
         p = subprocess.run(cmd, cwd=cwd, env=env or ENV, stdout=subprocess.PIPE, stderr=subprocess.STDOUT,
-                           timeout=timeout, text=True, errors="replace")
+                           timeout=timeout, text=True, errors="replace", preexec_fn=_limits)
         return p.returncode, p.stdout, time.time() - t0
     except subprocess.TimeoutExpired as e:
         out = e.stdout if isinstance(e.stdout, str) else (e.stdout or b"").decode("utf8", "replace")
@@ -121,7 +131,10 @@ def write_crate(fam, programs):
         for k, v in deps.items():
             f.write("%s = %s\n" % (k, v))
         f.write('\n[lints.rust]\nunexpected_cfgs = { level = "allow" }\n\n[workspace]\n')
-    shutil.copy(os.path.join(REPO, "Cargo.lock"), os.path.join(cd, "Cargo.lock"))
+    lock = os.path.join(REPO, "Cargo.lock")
+    if not os.path.exists(lock):  # Cargo.lock is git-ignored in the repository: scratch worktrees have none
+        lock = "/repo/Cargo.lock"
+    shutil.copy(lock, os.path.join(cd, "Cargo.lock"))
     with open(os.path.join(cd, "src", "lib.rs"), "w") as f:
         f.write("// GENERATED by /verif/check on every run -- do not edit.\n")
         f.write("#![allow(dead_code, unused_imports, unused_variables, unused_mut, non_camel_case_types, non_snake_case, clippy::all)]\n")
@@ -329,15 +342,19 @@ def playback(fam, prog, h, log, want_cover=None):
     if want_cover:
         blocks = [b for b in blocks if "Check for `cover`" in b and want_cover in b]
     else:
-        blocks = [b for b in blocks if "Check for `cover`" not in b]
+        # Kani de-duplicates playback tests by their concrete values and may label the survivor with a cover:
+        # keep the assertion-labelled tests first, but also run the cover-labelled ones (same harness, same
+        # assertions): the violation reproduces iff ANY of them fails natively.
+        blocks = [b for b in blocks if "Check for `cover`" not in b] + [b for b in blocks if "Check for `cover`" in b]
     if not blocks:
         return None, None, out[-4000:]
-    test_src = blocks[0]
-    mname = re.search(r"fn (kani_concrete_playback_\w+)", test_src)
-    if not mname:
+    test_src = "\n".join(blocks)
+    tnames = re.findall(r"fn (kani_concrete_playback_\w+)", test_src)
+    if not tnames:
         return None, test_src, out[-4000:]
-    tname = mname.group(1)
-    # insert the test into the program module's `mod proofs` (generated crate: editing is fine)
+    # common prefix used as the libtest filter (kani_concrete_playback_<harness>_)
+    tname = "kani_concrete_playback_" + h.name
+    # insert the tests into the program module's `mod proofs` (generated crate: editing is fine)
     path = os.path.join(cd, prog.meta.get("proofs_file", os.path.join("src", prog.key + ".rs")))
     src = open(path).read()
     marker = "// PLAYBACK-INSERTION-POINT"
@@ -346,7 +363,8 @@ def playback(fam, prog, h, log, want_cover=None):
     src = src.replace(marker, test_src + "\n" + marker, 1)
     open(path, "w").write(src)
     cmd2 = ["cargo", "kani", "playback", "-Z", "concrete-playback"] + \
-           [x for f in ("function-contracts", "stubbing") if f in fam.kani_flags for x in ("-Z", f)] + ["--", tname]
+           [x for f in ("function-contracts", "stubbing") if f in fam.kani_flags for x in ("-Z", f)] + \
+           ["--", "--exact"] + [prog.key + "::proofs::" + n for n in tnames]
     rc2, out2, dt2 = sh(cmd2, cwd=cd, timeout=1200, env=dict(ENV, CARGO_TARGET_DIR=td + "/playback"))
     ran = re.search(r"test result: (\w+)\. (\d+) passed; (\d+) failed", out2)
     if not ran:
